@@ -134,7 +134,7 @@ def fam_fp_acos(ctx, m, kind):
 def families(tier, seed):
     import random
     rng = random.Random(seed)
-    frames = ['axis', 'oblique', 'pyth3'] if tier == 'quick' else ['axis', 'planar', 'oblique', 'pyth3', 'pyth7', 'shear']
+    frames = ['axis', 'oblique', 'pyth3', 'pyth7'] if tier == 'quick' else ['axis', 'planar', 'oblique', 'pyth3', 'pyth7', 'shear']
     fams = []
     for fi, fr_name in enumerate(frames):
         perms = [None] if tier == 'quick' else [None, rng.randrange(48)]
